@@ -349,6 +349,10 @@ def helper_forms(ctx: core.Ctx):
 
     def sca(e):
         k = e[0]
+        if k == "call" and e[1] == "narrow_float" and len(e[2]) == 1:
+            # a float literal / a cast to float: the arithmetic it takes part in is single precision -- not the double-precision value the other side computes
+            v = sca(e[2][0])
+            return Scalar.atom("single-precision[" + repr(v) + "]") if v is not None else None
         if k == "call" and e[1] != "sqrt":
             u = unfold(e)
             return sca(u) if u is not None else None
